@@ -181,6 +181,12 @@ def check_lgbn(case, out):
     L = np.linalg.cholesky(cov + 1e-12 * np.eye(len(names)))
     data = mu + rng.standard_normal((n_rows, len(names))) @ L.T
     df = pd.DataFrame(data, columns=names)
+    imode = ["default", "reversed_labels", "offset", "default"][case["seed"] % 4]  # row labels other than 0..n-1: rows stay rows
+    if imode == "reversed_labels":
+        df.index = list(range(len(df) - 1, -1, -1))
+    elif imode == "offset":
+        df.index = [100 + 3 * i for i in range(len(df))]
+    out.cls(f"fit_index_{imode}")
     m2 = out.call("build", build_lgbn, dict(case, cpds=[]))
     if m2 is not RAISED and np.linalg.matrix_rank(np.column_stack([data, np.ones(n_rows)])) == len(names) + 1:
         r = out.call("fit", m2.fit, df)
@@ -437,6 +443,34 @@ def check_gd(case, out):
                     if not close(got, want):
                         out.fail(f"canonical.{opname}:value", f"log {got!r} vs {want!r}; scopes {names} and {names2c}")
                         break
+    # call sequence: the precision matrix is cached on first use; after marginalize / reduce the cached matrix must be
+    # that of the new distribution
+    if sub and keep:
+        for opname in ("marginalize", "reduce"):
+            for inplace in (False, True):
+                g3 = gd.copy()
+                if out.call("precision_matrix", lambda: g3.precision_matrix) is RAISED:
+                    continue
+                if opname == "marginalize":
+                    r = out.call("marginalize[after_precision_was_read]", g3.marginalize, list(case["perm"]), inplace=inplace)
+                    want_cov3 = cov[np.ix_(ki, ki)]
+                else:
+                    order3 = list(zip(sub, case["vals"]))
+                    order3 = [order3[sub.index(v)] for v in case["perm"]]
+                    r = out.call("reduce[after_precision_was_read]", g3.reduce, [(v, x) for v, x in order3], inplace=inplace)
+                    S_jj3, S_ji3, S_ii3 = cov[np.ix_(ki, ki)], cov[np.ix_(ki, si)], cov[np.ix_(si, si)]
+                    K3 = S_ji3 @ np.linalg.inv(S_ii3)
+                    want_cov3 = S_jj3 - K3 @ S_ji3.T
+                out.evals += 1
+                if r is RAISED:
+                    continue
+                res3 = g3 if inplace else r
+                pm = out.call("precision_matrix[after_" + opname + "]", lambda: res3.precision_matrix)
+                if pm is RAISED or pm is None:
+                    continue
+                wantP = np.linalg.inv(want_cov3)
+                if np.asarray(pm).shape != wantP.shape or np.max(np.abs(np.asarray(pm, dtype=float) - wantP)) > 1e-6 * max(1.0, float(np.max(np.abs(wantP)))):
+                    out.fail(f"{opname}[after_precision_was_read]:stale_precision_matrix", f"{opname} {case['perm']} of {names} (inplace={inplace}): precision {np.asarray(pm).tolist()} vs {wantP.tolist()}")
     # product: density proportional to the pointwise product
     names2 = case["names2"]
     m = len(names2)
